@@ -382,6 +382,7 @@ def scn_model(newick, taxa_names, seqs, dates, tree_kind, clock, site, K, tip_st
             initialize_dates_from_taxa(tree, taxa)
             hs = mk.real("h", batch + (T - 1,), lo=0)
             tm = TimeTreeModel("tree", tree, taxa, Parameter("h", hs))
+        sm_inv = sm_mu = None
         if site == "constant":
             sm = ConstantSiteModel("site")
             KK = 1
@@ -389,10 +390,24 @@ def scn_model(newick, taxa_names, seqs, dates, tree_kind, clock, site, K, tip_st
             shape = mk.real("shape", (1,), lo=0)
             sm = WeibullSiteModel("site", Parameter("shape", shape), K)
             KK = K
+        elif site.startswith("weibull+"):
+            # "weibull+inv", "weibull+mu", "weibull+inv+mu": the optional invariant category and relative rate
+            shape = mk.real("shape", (1,), lo=0)
+            sm_inv = mk.real("inv", (1,), lo=0, hi=1, lo_incl=True) if "+inv" in site else None
+            sm_mu = mk.real("mu", (1,), lo=0) if "+mu" in site else None
+            sm = WeibullSiteModel("site", Parameter("shape", shape), K, None if sm_inv is None else Parameter("inv", sm_inv),
+                                  None if sm_mu is None else Parameter("mu", sm_mu))
+            KK = K + (1 if sm_inv is not None else 0)
+        elif site == "invariant+mu":
+            sm_inv = mk.real("inv", (1,), lo=0, hi=1, lo_incl=True)
+            sm_mu = mk.real("mu", (1,), lo=0)
+            sm = InvariantSiteModel("site", Parameter("inv", sm_inv), Parameter("mu", sm_mu))
+            KK = 2
         else:
             inv = mk.real("inv", (1,), lo=0, hi=1, lo_incl=True)
             sm = InvariantSiteModel("site", Parameter("inv", inv))
             KK = 2
+            sm_inv = inv
         cm = None
         if clock == "strict":
             cr = mk.real("clock", cbatch + (1,), lo=0)
@@ -464,7 +479,12 @@ def scn_model(newick, taxa_names, seqs, dates, tree_kind, clock, site, K, tip_st
                     tip=lambda leaf, j: tipvec(leaf, col)[j])
                 tot = tot + slog(bf)
             spec.append(tot)
-        return [("eq", "model_loglik_is_marginal", res, spec)]
+        cl = [("eq", "model_loglik_is_marginal", res, spec)]
+        # the marginal sum above runs over the categories the site model publishes; what those categories must satisfy is C05's contract,
+        # re-stated on the instance this pipeline uses (relative rate applied, invariant category with rate 0 and probability p_inv)
+        from contracts.C05 import _claims as _site_claims
+        cl += [c for c in _site_claims(mk, sm.rates(), sm.probabilities(), sm_mu, sm_inv) if c[1] != "rates_value"]
+        return cl
     return scn
 
 
@@ -1167,6 +1187,10 @@ def obligations(tier, seed):
                     newick, "".join(taxa_names), tree_kind, clock, site, K, tip_states, use_amb, batch),
                     "scn_model", (newick, taxa_names, seqs, dates, tree_kind, clock, site, K, tip_states, use_amb, batch),
                     "TreeLikelihoodModel pipeline ≡ marginal sum", fns={"P": lambda t, i, j: _pfun(t, i, j, 4)})
+    for site_, K_ in (("weibull+inv+mu", 2), ("weibull+mu", 2), ("weibull+inv", 2), ("invariant+mu", 2), ("weibull+mu", 1), ("weibull+inv+mu", 1)):
+        add("C01.model.JC69[((A,B),C);,unrooted,site=%s,K=%d]" % (site_, K_), "scn_model",
+            ("((A,B),C);", ["C", "A", "B"], ["ACR", "CGN", "GT-"], [0.0, 0.0, 0.0], "unrooted", None, site_, K_, False, True, (), "JC69"),
+            "TreeLikelihoodModel pipeline ≡ marginal sum over the categories of a site model with invariant class and relative rate")
     add("C01.model.JC69[((A,B),C);,unrooted,weibull]", "scn_model",
         ("((A,B),C);", ["C", "A", "B"], ["ACR", "CGN", "GT-"], [0.0, 0.0, 0.0], "unrooted", None, "weibull", 2, False, True, (), "JC69"),
         "TreeLikelihoodModel pipeline with the real JC69 model ≡ marginal sum")
